@@ -9,16 +9,34 @@
 // history the client has never seen) with its own refs, the client the whole
 // of it with other refs, so that pushes are fast-forward, non-fast-forward,
 // new, deletions or no-ops depending on the ancestry the model knows.
+//
+// Two transports (plan field Transport): "" = the stateful stream transport
+// (simnet.Transport runs transport.ReceivePack over two byte streams); "http" =
+// smart HTTP: the real plumbing/transport/http client (GET
+// info/refs?service=git-receive-pack, then one POST carrying commands and
+// pack; the response carries report-status) through an http.Client whose
+// RoundTripper is simnet.HTTP to the real backend.Backend.ServeHTTP, a fresh
+// Storage per request. Each request/response pair takes its stream behaviour
+// from Conns[k % len]; a round can also be replaced by a transport error, a
+// 4xx/5xx of an intermediary or a redirect. The oracle is the same for both:
+// the server's final image is judged by the update rules whatever Push
+// returned; over HTTP, a Push that reports success although fewer response
+// bytes arrived than the shortest report-status is a violation.
 package c38
 
 import (
 	"errors"
 	"fmt"
+	"net/http"
+	neturl "net/url"
+	"path"
 	"sort"
 	"strings"
 	"testing"
+	"testing/synctest"
 
 	git "github.com/go-git/go-git/v6"
+	"github.com/go-git/go-git/v6/backend"
 	"github.com/go-git/go-git/v6/config"
 	"github.com/go-git/go-git/v6/plumbing"
 	"github.com/go-git/go-git/v6/plumbing/cache"
@@ -69,6 +87,9 @@ type Plan struct {
 	LeaseAll  bool             `json:"lease_all"` // lease without a ref name (protects every ref)
 	LeaseDst  int              `json:"lease_dst"` // remoteNames index the lease names
 	Conns     []simnet.ConnCfg `json:"conns"`
+	// Transport: "" = stateful stream, "http" = smart HTTP (stateless RPC).
+	Transport  string             `json:"transport,omitempty"`
+	HTTPFaults []simnet.HTTPFault `json:"http_faults,omitempty"` // whole-round events (http only)
 }
 
 var remoteNames = []string{"refs/heads/main", "refs/heads/dev", "refs/heads/rel", "refs/heads/new"}
@@ -131,6 +152,28 @@ func genPlan(r *core.Rand, tier string) any {
 			p.Conns[0].C2S.CutAt = int64(r.Range(1, 1500))
 		} else {
 			p.Conns[0].S2C.CutAt = int64(r.Range(1, 400))
+		}
+	}
+	if r.Chance(2, 5) {
+		// smart HTTP: round 0 is the info/refs GET, round 1 the POST
+		p.Transport = "http"
+		p.Conns = []simnet.ConnCfg{{C2S: genCfg(r), S2C: genCfg(r)}, {C2S: genCfg(r), S2C: genCfg(r)}}
+		if r.Chance(1, 4) {
+			switch r.Intn(7) {
+			case 0, 1: // report-status lost
+				p.Conns[1].S2C.CutAt = int64(r.Range(1, 200))
+				p.Conns[1].S2C.CutKind = r.Intn(2)
+			case 2: // commands / pack cut on their way
+				p.Conns[1].C2S.CutAt = int64(r.Range(1, 1500))
+			case 3: // advertisement cut
+				p.Conns[0].S2C.CutAt = int64(r.Range(1, 400))
+			case 4:
+				p.HTTPFaults = []simnet.HTTPFault{{Round: r.Intn(2), Kind: "error"}}
+			case 5:
+				p.HTTPFaults = []simnet.HTTPFault{{Round: r.Intn(2), Kind: "status", Status: r.Pick2(401, 403, 404, 429, 500, 502, 503)}}
+			default:
+				p.HTTPFaults = []simnet.HTTPFault{{Round: r.Pick2(0, 0, 1), Kind: "redirect", Status: r.Pick2(301, 302, 307, 308)}}
+			}
 		}
 	}
 	return p
@@ -266,10 +309,28 @@ func execPlan(t *testing.T, pa any) (out core.Outcome) {
 		}
 		tagHash := tagRef.Hash()
 		local[tagName] = tagHash
-		tr := &simnet.Transport{Conns: p.Conns, Open: func(path string) (storage.Storer, error) {
-			return filesystem.NewStorage(srvDisk.FS(path, "server"), cache.NewObjectLRUDefault()), nil
-		}}
-		const url = "sim://server/srv/repo.git"
+		isHTTP := p.Transport == "http"
+		var tr *simnet.Transport
+		var ht *simnet.HTTP
+		var copts []client.Option
+		url := "sim://server/srv/repo.git"
+		if isHTTP {
+			// a server process per request: a fresh Storage on the server's disk
+			be := backend.New(simnet.LoaderFunc(func(u *neturl.URL) (storage.Storer, error) {
+				return filesystem.NewStorage(srvDisk.FS(path.Clean("/"+u.Path), "server"), cache.NewObjectLRUDefault()), nil
+			}))
+			ht = &simnet.HTTP{Handler: be, Conns: p.Conns, Faults: p.HTTPFaults}
+			// the backend refuses receive-pack without an Authorization header
+			auth := func(r *http.Request) error { r.SetBasicAuth("sim", "sim"); return nil }
+			copts = []client.Option{client.WithTransport("http", simnet.NewHTTPTransport(ht, auth))}
+			url = "http://server/srv/repo.git"
+			defer ht.Shutdown()
+		} else {
+			tr = &simnet.Transport{Conns: p.Conns, Open: func(path string) (storage.Storer, error) {
+				return filesystem.NewStorage(srvDisk.FS(path, "server"), cache.NewObjectLRUDefault()), nil
+			}}
+			copts = []client.Option{client.WithTransport("sim", tr)}
+		}
 		cfg, _ := repo.Config()
 		cfg.Remotes["origin"] = &config.RemoteConfig{Name: "origin", URLs: []string{url}, Fetch: []config.RefSpec{"+refs/heads/*:refs/remotes/origin/*"}}
 		if err := repo.SetConfig(cfg); err != nil {
@@ -367,7 +428,7 @@ func execPlan(t *testing.T, pa any) (out core.Outcome) {
 			out.Inconclusive = "empty-request"
 			return
 		}
-		o := &git.PushOptions{RemoteName: "origin", RefSpecs: specs, ClientOptions: []client.Option{client.WithTransport("sim", tr)},
+		o := &git.PushOptions{RemoteName: "origin", RefSpecs: specs, ClientOptions: copts,
 			Force: p.Force, Atomic: p.Atomic, FollowTags: p.Follow, Prune: p.Prune}
 		// ---- lease ----
 		leaseDst := remoteNames[mod(p.LeaseDst, len(remoteNames))]
@@ -412,7 +473,16 @@ func execPlan(t *testing.T, pa any) (out core.Outcome) {
 		}
 		opErr := repo.Push(o)
 		opReturned = true
-		st := tr.Totals()
+		var st simnet.Stats
+		if isHTTP {
+			// the handler of the last round may still be at work after the client
+			// returned: let it run until it has finished (or is blocked for good)
+			synctest.Wait()
+			st = ht.Totals()
+		} else {
+			st = tr.Totals()
+		}
+		faultInjected := st.Cut
 		upToDate := errors.Is(opErr, git.NoErrAlreadyUpToDate)
 		success := opErr == nil || upToDate
 		logf("push %v force=%v atomic=%v follow=%v prune=%v lease=%d/%v/%s -> %s (cut %v)", specs, p.Force, p.Atomic, p.Follow, p.Prune, p.Lease, p.LeaseAll, leaseDst, errStr(opErr), st.Cut)
@@ -420,7 +490,71 @@ func execPlan(t *testing.T, pa any) (out core.Outcome) {
 		if st.Cut {
 			out.Faults = map[string]int{"stream-cut": 1}
 		}
-		tr.Wait()
+		if isHTTP {
+			ht.Shutdown() // every handler has returned: the server image is final
+			if out.Faults == nil {
+				out.Faults = map[string]int{}
+			}
+			posted, respCut, respBytes := false, false, int64(0)
+			for _, r := range ht.RoundsFrom(0) {
+				logf("  %s", r.Describe())
+				switch r.Fault {
+				case "error":
+					out.Faults["http-round-error"]++
+					faultInjected = true
+				case "status":
+					out.Faults["http-status"]++
+					faultInjected = true
+				case "redirect":
+					out.Faults["http-redirect"]++
+					if r.Method == "GET" {
+						out.Probe("http-discovery-redirected")
+					} else {
+						faultInjected = true // only the discovery request may be redirected
+					}
+				}
+				if r.Lost {
+					faultInjected = true
+				}
+				if r.Panic != "" {
+					out.Fail("C38|http|server-handler-panic", "the server's HTTP handler panicked (%s %s): %.200s", r.Method, r.Path, r.Panic)
+				}
+				if r.Method == "POST" && r.Fault == "" {
+					posted = true
+					if r.Lost {
+						out.Probe("http-push-request-cut")
+					}
+					if r.RespCut() {
+						respCut, respBytes = true, r.RespBytes()
+					}
+				}
+			}
+			if len(out.Faults) == 0 {
+				out.Faults = nil
+			}
+			if posted {
+				out.Probe("http-push-posted")
+			}
+			if success && posted {
+				out.Probe("http-push")
+			}
+			if respCut {
+				// report-status lost (in part): the server's image is judged by the
+				// rules below whatever Push returned
+				out.Probe("http-push-response-cut")
+				if success {
+					out.Probe("http-push-response-cut:push-returned-ok")
+					// "000eunpack ok\n" alone is 14 bytes; no complete report fits in less
+					if respBytes < 14 {
+						out.Fail("C38|http|success-without-report-status", "the response to the push was cut after %d bytes, before any report-status could have arrived, yet Push returned %s", respBytes, errStr(opErr))
+					}
+				} else {
+					out.Probe("http-push-response-cut:error-returned")
+				}
+			}
+		} else {
+			tr.Wait()
+		}
 		// ---- server image ----
 		vst := filesystem.NewStorage(srvDisk.Clone().FS("/srv/repo.git", "verify"), cache.NewObjectLRUDefault())
 		defer vst.Close()
@@ -524,6 +658,14 @@ func execPlan(t *testing.T, pa any) (out core.Outcome) {
 		}
 		if !success {
 			out.Probe("push-error:" + errClass(opErr))
+			if !faultInjected {
+				switch c := errClass(opErr); c {
+				case "http-status", "broken-pipe", "connection-reset", "connection-refused", "redirect", "EOF", "closed":
+					// nothing was cut, no round was replaced: the wire cannot be the reason
+					out.Fail("C38|transport-error-without-fault|"+c, "Push failed with a transport-level error although no fault was injected: %v", opErr)
+					return
+				}
+			}
 			if p.Atomic && changed > 0 {
 				// go-git's server does not advertise the atomic capability and the
 				// client then drops the request silently (git would refuse to push);
@@ -599,7 +741,10 @@ func errStr(err error) string {
 
 func errClass(err error) string {
 	s := err.Error()
-	for _, k := range []string{"non-fast-forward", "tag already exists", "already up-to-date", "failed to update ref", "get commit", "broken pipe", "connection reset", "EOF", "reference not found", "unpack", "closed"} {
+	if strings.Contains(s, "status code") || strings.Contains(s, "unexpected status") {
+		return "http-status"
+	}
+	for _, k := range []string{"non-fast-forward", "tag already exists", "already up-to-date", "failed to update ref", "get commit", "broken pipe", "connection reset", "connection refused", "redirect", "EOF", "reference not found", "unpack", "closed"} {
 		if strings.Contains(s, k) {
 			return strings.ReplaceAll(k, " ", "-")
 		}
@@ -611,17 +756,20 @@ func TestCheck(t *testing.T) {
 	core.Main(t, core.Check{
 		ID:    "C38",
 		Level: "exploration",
-		Rule: "plan = generated DAG (2-10 commits, merges) of which the server holds a prefix (optionally also an unrelated history) with up to 3 branch refs and optionally a lightweight tag, the client the whole with 3 local branches and an annotated tag x 1-3 refspecs (branch, commit hash, delete, refs/heads/* and refs/tags/* wildcards, tag; optionally forced with +) x Force / Atomic / FollowTags / Prune / force-with-lease (named ref or all refs; explicit hash or tracking ref; matching or not) x stream behaviour (capacity, segmentation, optional cut); each requested update is classified by the model's own ancestry relation (new, ff, non-ff, delete, noop, tag-new, tag-clobber, prune-delete); " +
+		Rule: "plan = generated DAG (2-10 commits, merges) of which the server holds a prefix (optionally also an unrelated history) with up to 3 branch refs and optionally a lightweight tag, the client the whole with 3 local branches and an annotated tag x 1-3 refspecs (branch, commit hash, delete, refs/heads/* and refs/tags/* wildcards, tag; optionally forced with +) x Force / Atomic / FollowTags / Prune / force-with-lease (named ref or all refs; explicit hash or tracking ref; matching or not) x transport: stateful stream (3/5 of the plans) or smart HTTP (2/5: real HTTP client and backend.Backend; round 0 = info/refs?service=git-receive-pack, round 1 = the POST, each with its own stream behaviour) x stream behaviour (capacity, segmentation, optional cut of either direction; over HTTP also: advertisement cut, commands/pack cut, report-status cut, a round replaced by a transport error or a 4xx/5xx, a redirect of the discovery or of the POST); each requested update is classified by the model's own ancestry relation (new, ff, non-ff, delete, noop, tag-new, tag-clobber, prune-delete); " +
 			"non-trivial = a non-fast-forward or a deletion was requested, a Write was split, or a cut fired",
 		Assumptions: []string{"both peers are go-git (real git as a peer is not simulated)",
+			"HTTP: of net/http's server only the request-body contract is modelled; a cut response body surfaces as a read error, never as a clean EOF; a cut of the request direction loses the whole round; the backend's receive-pack wants an Authorization header, the client sends basic credentials; TLS, auth challenges, proxies are not explored",
+			"a Push that fails with a transport-level error (status, reset, EOF, refused, redirect) although no fault was injected is a violation; over HTTP so is a Push that reports success although fewer response bytes arrived than the shortest report-status",
 			"whatever the outcome: a remote ref may only change to the requested value; a non-fast-forward or tag overwrite only when forced or covered by a lease; a ref covered by a lease only when its remote value equals the lease's expectation; every remote ref names complete history; after success every requested update is in place and a reachable annotated tag was followed"},
-		Real:    []string{"Remote.Push", "refspec resolution, fast-forward, tag and lease checks", "revlist.Objects", "packfile encoder", "transport.ReceivePack", "storage/filesystem on both sides"},
-		Stub:    []string{"network (simnet)", "both disks (simfs)"},
+		Real: []string{"Remote.Push", "refspec resolution, fast-forward, tag and lease checks", "revlist.Objects", "packfile encoder", "transport.ReceivePack", "plumbing/transport/http (Handshake for git-receive-pack, smartPackSession.Push, httpRequester POST, report-status decoding, redirect policy)", "backend.Backend.ServeHTTP (info/refs advertisement, stateless-rpc ReceivePack on a fresh Storage per request, Authorization requirement)", "storage/filesystem on both sides"},
+		Stub: []string{"network (simnet streams; simnet.HTTP RoundTripper + ResponseWriter instead of sockets and net/http's server)", "both disks (simfs)"},
 		// Atomic: go-git's receive-pack does not advertise the capability, so the option is a no-op against it (probe only).
 		Runs:    map[string]int{"quick": 16000, "thorough": 500000},
 		NewPlan: func() any { return &Plan{} },
 		Gen:     genPlan,
 		Exec:    execPlan,
-		RequiredProbes: []string{"ok", "applied:ff", "applied:new", "applied:non-ff", "applied:delete", "applied:tag-new", "applied:prune-delete", "requested:non-ff", "requested:tag-clobber", "lease-covers:true", "lease-covers:false", "applied:followed-tag"},
+		RequiredProbes: []string{"ok", "applied:ff", "applied:new", "applied:non-ff", "applied:delete", "applied:tag-new", "applied:prune-delete", "requested:non-ff", "requested:tag-clobber", "lease-covers:true", "lease-covers:false", "applied:followed-tag",
+			"http-push", "http-push-response-cut", "http-push-request-cut", "http-discovery-redirected", "push-error:http-status"},
 	})
 }
